@@ -27,6 +27,8 @@ const CHARS: &[&str] = &[
     "<", ">", "$", "%", "&", "!", "#", "@", "[", "]", "{", "}", "|", "\\", "'", "`", "~", "_", ".",
     "A", "B", "X", "e", "E", "i", "n", "f", "a", "z", "0", "1", "9",
     "é", "ü", "ß", "λ", "Ж", "中", "💥", "😀", "e\u{301}", "\u{200b}", "\u{feff}", "\u{2028}", "\u{a0}",
+    // characters of Unicode's numeric classes that are not ASCII digits
+    "１", "０", "²", "½", "٣", "Ⅷ", "①", "৪",
 ];
 
 const WORDS: &[&str] = &[
@@ -59,7 +61,13 @@ pub fn random_line(rng: &mut Rng, max_units: usize) -> String {
                     s.push('"');
                 }
             }
-            _ => s.push_str(&format!("{}", rng.below(200))),
+            _ => {
+                s.push_str(&format!("{}", rng.below(200)));
+                if rng.chance(1, 6) {
+                    // a digit run continued by a non-ASCII numeric character
+                    s.push_str(rng.s(&["²", "１", "½", "٣", "①"]));
+                }
+            }
         }
     }
     s
